@@ -13,7 +13,7 @@ abbrev Str := List Char
 model does not distinguish further (it never occurs on a model code path; the driver prints it). -/
 inductive PyErr
   | molfileParser | tucanParser | keyError | indexError | valueError | assertion | recursion
-  | typeError | other
+  | typeError | other | osError
   deriving Repr, DecidableEq, Inhabited
 
 abbrev PyM := Except PyErr
@@ -28,6 +28,7 @@ def PyErr.name : PyErr → String
   | .recursion => "RecursionError"
   | .typeError => "TypeError"
   | .other => "Other"
+  | .osError => "OSError"
 
 /-! ## Orders and sorting (Python `sorted` on ints and tuples) -/
 
